@@ -72,6 +72,7 @@ fn sweep_tokenisations(rep: &Report, maxlen: usize) {
     rep.eval(n);
     rep.add_states(n, n);
     rep.extra("tokenisations_checked", json!(n));
+    rep.sample(json!({"source": "abababab", "tokenisation": format!("{:?}", [Tok::Lit(b'a'), Tok::Lit(b'b'), Tok::Copy { offset: 2, len: 6 }]), "container_hex": hex(&container(&[chunk(&[Tok::Lit(b'a'), Tok::Lit(b'b'), Tok::Copy { offset: 2, len: 6 }])]))}));
     rep.extra("sources", json!(sources.len()));
 }
 
@@ -258,7 +259,7 @@ fn run_case(rep: &Report, ch: &mut Chooser, fmt: &'static str, thorough: bool, l
         }
     };
     local.push((hash_of(&c.bytes), !ch.is_default(), outcome));
-    if rep.want_sample() && ch.choices().iter().filter(|x| **x != 0).count() >= 3 { rep.sample(c.desc.clone()); }
+    if rep.want_sample() && ch.choices().iter().filter(|x| **x != 0).count() >= 2 { rep.sample(c.desc.clone()); }
 }
 
 pub fn check(rep: &Report) {
